@@ -192,6 +192,15 @@ def psdZeroF64 (p a b : Pt) : Bool :=
 def ptLsZeroF64 (p : Pt) (cs : List Pt) : Bool :=
   lsContainsPointTol cs p || cs.isEmpty || (segs cs).any (fun (s, e) => psdZeroF64 p s e)
 
+/-- Coordinates so small (or large) that products of coordinate differences underflow (overflow): Shewchuk's
+adaptive predicates behind `RobustKernel` are exact only in the absence of underflow/overflow (known finding
+K10, see `Ops/C11.lean`). -/
+def underflowRange (ps : List Pt) : Bool :=
+  let tiny : Rat := pow2 (-400)
+  let huge : Rat := pow2 400
+  ps.any (fun p => (p.x != 0 && rabs p.x < tiny) || (p.y != 0 && rabs p.y < tiny) ||
+    rabs p.x > huge || rabs p.y > huge)
+
 /-- `C07.near PT <p> LS <cs> => d(P,LS) d(LS,P) intersects` -/
 def handleNear (inp out : List String) : String :=
   let pin : P (Pt × List Pt) := do
@@ -205,7 +214,8 @@ def handleNear (inp out : List String) : String :=
     let d2 := match listMin ((segs cs).map (fun (s, e) => psd2 p s e)) with | some d => d | none => 0
     let same := (decide (v = 0) == mzero) && (decide (w = 0) == mzero)
     let prop :=
-      if isx != onLine then "FAIL:intersects-inexact"
+      if isx != onLine then
+        (if underflowRange (p :: cs) then "FAIL:intersects-inexact-underflow-range" else "FAIL:intersects-inexact")
       else if v == 0 && !onLine then "FAIL:zero-within-tolerance-but-disjoint"
       else if v != 0 && onLine then "FAIL:nonzero-on-the-line"
       else if v != w then "FAIL:asymmetric"
